@@ -320,3 +320,25 @@ def shrink(src, pred, max_steps=3000):
                 if steps >= max_steps:
                     break
     return src
+
+
+def heredoc_corpus():
+    """here-documents in every position relative to compound commands and multi-line words, with bodies that hold
+    expansions spanning lines: (announcement line, rest of the program) x operators x delimiter quoting x bodies"""
+    bodies = ["", "line\n", "a $x\n", "$(c)\n", "$(\n\techo x\n)\n", "`a\nb`\n", "x $((1 +\n2)) y\n", "a\\\nb\n", "${v:-$(\n\tp\n)}\n", "\"$(\n\tq\n)\" '\n"]
+    ctxs = [("cat {H} | while a; do", "\tb\ndone\n"), ("cat {H}; while true; do", "\tfoo\ndone\n"), ("cat {H} && if a; then", "\tb\nfi\n"),
+            ("cat {H} | {", "\tb\n}\n"), ("if cat {H}; then", "\ta\nfi\n"), ("while a {H}; do", "\tb\ndone\n"), ("cat {H} | (b", "c)\n"),
+            ("f() { cat {H}", "}\n"), ("case x in a) cat {H}", ";; esac\n"), ("for i in 1; do cat {H}", "done\n"), ("cat {H}", ""),
+            ("cat {H} | until a; do", "\tb\ndone | c\n"), ("{ cat {H}; if a; then", "\tb\nfi; }\n"), ("cat {H} || for i in 1 2; do", "\tb\ndone\n"),
+            ("cat {H}; case x in", "a) b ;;\nesac\n"), ("! cat {H} | f() {", "\tb\n}\n"), ("x=$(cat {H}", ")\n"), ("cat {H} &", "wait\n")]
+    out = []
+    for op in ("<<", "<<-"):
+        for q in ("E", "'E'", "\\E"):
+            for b in bodies:
+                body = b if op == "<<" else "".join("\t" + ln + "\n" for ln in b.split("\n")[:-1])
+                for first, rest in ctxs:
+                    out.append(first.replace("{H}", op + q) + "\n" + body + ("\t" if op == "<<-" else "") + "E\n" + rest)
+    # two here-documents on one line, the second body with a multi-line expansion
+    for first, rest in ctxs[:6]:
+        out.append(first.replace("{H}", "<<A <<B") + "\n1\nA\n$(\n\tx\n)\nB\n" + rest)
+    return out
